@@ -21,6 +21,8 @@ MEMBERS = [
     {"k": "cpp_member", "doc": 1, "types": ["int", "desc", "str"], "params": ["row", "col", "value"],
      "doctext": ["Fills a cell.", "", ":param row: the row", ":type row: index"]},
     {"k": "cpp_member", "doc": 0, "types": ["str", "int", "bool"], "params": ["name_in", "count_in", "verbose"]},
+    {"k": "cpp_member", "doc": 1, "types": ["int", "bool"], "params": ["factor", "keep"], "selfname": "this"},
+    {"k": "cpp_member", "doc": 0, "name": "resize", "types": ["int"], "params": ["w"]},     # an overloaded name
     {"k": "cpp_constructor", "doc": 1, "types": ["int"], "params": ["x"]},
     {"k": "cpp_constructor", "doc": 0, "types": [], "params": [], "impl": "macro"},
 ]
@@ -28,7 +30,8 @@ ATTRS = [{"k": "cpp_attr", "doc": 0}, {"k": "cpp_attr", "doc": 1, "default": "df
          {"k": "cpp_attr", "doc": 1, "default": '"quoted v"'}, {"k": "cpp_attr", "doc": 0, "default": "${ref}"}]
 CLASSES = [{"k": "cpp_class", "doc": 0}, {"k": "cpp_class", "doc": 1, "bases": ["Base"]},
            {"k": "cpp_class", "doc": 1, "bases": ["B1", "ns::B2"]}]
-CONFIGS = [{}, {"member_parameter_name_strip_regex": "^_[a-z]*_"}, {"member_parameter_name_strip_regex": "_[^_]*$"},
+CONFIGS = [{}, {"member_parameter_name_strip_regex": "^_[a-z]*_"},
+           {"member_parameter_name_strip_regex": "^_m_", "function_parameter_name_strip_regex": "_in$"}, {"member_parameter_name_strip_regex": "_[^_]*$"},
            {"member_parameter_name_strip_regex": r"\A_+|\W+"}]
 
 
@@ -39,7 +42,7 @@ def enabled(events, maxnest):
         out += CLASSES
         if inner == "cpp_class":
             out += MEMBERS
-        out += [{"k": "function", "doc": 1, "params": ["h"]}, {"k": "if", "doc": 0}]
+        out += [{"k": "function", "doc": 1, "params": ["h", "_m_a", "name_in"]}, {"k": "if", "doc": 0}]
     if inner == "cpp_class":
         out += ATTRS
     out += [{"k": "set", "doc": 0}, {"k": "cmake_parse_arguments"}, {"k": "option", "doc": 0}, {"k": "generic", "doc": 1}]
